@@ -15,6 +15,28 @@ fn verif_replay() {
     let path = match std::env::var("VERIF_REPLAY") { Ok(p) => p, Err(_) => return };
     let case: serde_json::Value = serde_json::from_str(&std::fs::read_to_string(path).unwrap()).unwrap();
     let a = case["args"].clone();
+    if case["driver"].as_str() == Some("http_head") {
+        // feed raw bytes to the real HTTP head readers / the CONNECT target parser under catch_unwind
+        let which = a["which"].as_str().unwrap_or("HttpRequest").to_string();
+        let bytes = unhex(a["bytes"].as_str().unwrap_or(""));
+        let rt = tokio::runtime::Builder::new_current_thread().enable_all().build().unwrap();
+        let r = std::panic::catch_unwind(AssertUnwindSafe(|| rt.block_on(async {
+            use crate::common::http::{HttpRequest, HttpResponse};
+            if which == "target" {
+                let s = String::from_utf8_lossy(&bytes).to_string();
+                return format!("{:?}", s.parse::<crate::context::TargetAddress>().map(|t| t.to_string()).map_err(|_| "invalid"));
+            }
+            let stream = tokio_test::io::Builder::new().read(&bytes).build();
+            let mut stream = tokio::io::BufReader::new(stream);
+            if which == "HttpRequest" { format!("{:?}", HttpRequest::read_from(&mut stream).await.map(|r| r.resource).map_err(|e| e.to_string())) }
+            else { format!("{:?}", HttpResponse::read_from(&mut stream).await.map(|r| r.code).map_err(|e| e.to_string())) }
+        })));
+        match r {
+            Err(_) => println!("VERIF-OUTCOME {}", serde_json::json!({"panicked": true})),
+            Ok(x) => println!("VERIF-OUTCOME {}", serde_json::json!({"panicked": false, "result": x})),
+        }
+        return;
+    }
     if case["driver"].as_str() == Some("handover") {
         // the HTTP head and one whole frame arrive in ONE segment; the inline frame channel must deliver that frame
         let side = a["side"].as_str().unwrap_or("connect").to_string();
